@@ -196,6 +196,7 @@ func checkC11(c *core.Ctx) {
 		checkConnReset(c, r9c, pk)
 	}
 	checkCoherentTriples(c, c.Rule("R11.12", "T", "a connection is returned together with its own two halves (= R9.14): otherwise a stream obtained from the factory gets data but never its completion"))
+	timeParamsUsed(c, c.Rule("R11.14", "T", "each of the two cut-off times handed to a flush helper is used"))
 	limitPairing(c, c.Rule("R11.11", "T", "each page limit is compared with the counter it limits"))
 	{
 		r10 := c.Rule("R11.10", "T", "page queue links are stored in pairs (= R9.11/R10.11): a page that drops out of the forward list is never delivered and never returned to the cache")
